@@ -29,10 +29,7 @@ func (d *DatasourceExecuting) Run(ctx ExecutionContext, produce ProduceFn, metaS
 		return fmt.Errorf("couldn't stat file: %w", err)
 	}
 
-	pf, err := parquet.OpenFile(f, stat.Size(), &parquet.FileConfig{
-		SkipPageIndex:    true,
-		SkipBloomFilters: true,
-	})
+	pf, err := parquet.OpenFile(f, stat.Size(), parquet.SkipPageIndex(true), parquet.SkipBloomFilters(true))
 	if err != nil {
 		return fmt.Errorf("couldn't open parquet file: %w", err)
 	}
